@@ -84,13 +84,14 @@ def load_table(lines):
     return tab, pkgs, prts
 
 
-def gen_hist(rnd, tab, pkgs, prts, nsteps):
-    """a random history over the model's queries with the answers TLC expects; JSON-able case"""
+def gen_hist(rnd, tab, pkgs, prts, nsteps, stress=0):
+    """a random history over the model's queries with the answers TLC expects; JSON-able case.
+    stress: size dimension of the concretisation (big blobs, many members, long names)"""
     qn = sorted({k[2][2] for k in tab[(0, 0)] if k[1] == "has"})
-    names = B.gen_names(rnd, set(qn) | set(B.CTRL_NAMES))
+    names = B.gen_names(rnd, set(qn) | set(B.CTRL_NAMES), long_names=bool(stress))
     concs = {}
     for (o, g), pk in sorted(pkgs.items()):
-        concs["%d,%d" % (o, g)] = B.Conc(rnd, pk, qn, names=names)
+        concs["%d,%d" % (o, g)] = B.Conc(rnd, pk, qn, names=names, stress=stress)
     mems, hows, styles = {}, {}, {}
     for o in (1, 2):
         m = [B.INFO, prts[o]["ctrl"], prts[o]["data"]]
@@ -98,6 +99,8 @@ def gen_hist(rnd, tab, pkgs, prts, nsteps):
         mems[o] = m
         hows[o] = "filename" if rnd.random() < 0.5 else "fileobj"
         styles[o] = "dpkg" if rnd.random() < 0.8 else "gnu"
+    if stress and "fileobj" not in hows.values():
+        hows[rnd.choice((1, 2))] = "fileobj"
     queries = sorted(tab[(0, 0)])
     g = [0, 0]
     ops, prev = [], None
@@ -205,6 +208,10 @@ def sibling(rnd, conc, model):
     other, _ = random_package(rnd)                  # fresh fields / scripts; its data files are replaced
     keep = [m for m in model if rnd.random() < 0.85]
     dblob = {m: B.gen_blob(rnd) for m in keep}
+    st = getattr(conc, "stress", 0)
+    for m in keep[:6 if st == 1 else 2]:
+        if st and rnd.random() < 0.5:
+            dblob[m] = B.gen_big_blob(rnd, st)
     md5 = [(conc.names[m], hashlib.md5(dblob[m]).hexdigest()) for m in keep if rnd.random() < 0.7]
     rnd.shuffle(md5)
     cfiles = [(n, b) for n, b in other.cfiles if n != "md5sums"] + [("md5sums", B.render_md5(md5))]
